@@ -467,7 +467,30 @@ def lean_str(s):
 
 # ------------------------------------------------------------------------------------------------ main
 def gen_RegLayouts():
+    """never lets the extractor die: a database / source the static replica cannot read becomes an EMPTY table with the reason in
+    `problems` (the table theorems and the live cross-check then fail = a broken obligation, decided by the sweep on the real code)"""
     _emitted["done"] = True
+    try:
+        _gen_RegLayouts()
+    except Exception:  # noqa: BLE001
+        import traceback
+        why = traceback.format_exc()[-1500:]
+        body = ["import SpsdkVerif.Model.ConfigArea", "", "namespace SpsdkVerif.Generated.RegLayouts", "open SpsdkVerif.CfgArea", "",
+                "-- NOT GENERATED: the static replica of the database / register loader failed, see meta/RegLayouts.json",
+                "def layouts : List Layout := []", "def tzWords : List Nat := []", "def sealMark : List UInt8 := []",
+                "def bcaTag : List UInt8 := []", "def fcbTag : List UInt8 := []", "def xmcdTag : Nat := 0",
+                'def tzPackFormat : String × String × Nat := ("?", "?", 0)', 'def tzUnpackFormat : String × String × Nat := ("?", "?", 0)',
+                'def xmcdCrcAlg : String := "?"', "def fcbSize : Nat := 0", "def fcfSize : Nat := 0", "def bcaSize : Nat := 0", "",
+                "end SpsdkVerif.Generated.RegLayouts"]
+        emit("RegLayouts", "\n".join(body) + "\n", {"layouts": [], "rows": {}, "tz_rows": {}, "tz_files": {}, "problems": [why],
+                                                     "counts": {"layouts": 0, "rows": 0, "registers": 0, "bitfields": 0, "tz_rows": 0}})
+        for k in range(8):
+            emit(f"RegDetails{k}", "import SpsdkVerif.Model.ConfigArea\n", {"layouts": []})
+        emit("RegDetails", "import SpsdkVerif.Model.ConfigArea\n\nnamespace SpsdkVerif.Generated.RegDetails\nopen SpsdkVerif.CfgArea\n\n"
+             "def details : List LayoutD := []\n\nend SpsdkVerif.Generated.RegDetails\n", {"details": [], "counts": {"enums": 0, "names": 0}})
+
+
+def _gen_RegLayouts():
     db = Db()
     pfrc = class_consts("spsdk/pfr/pfr.py", {"BINARY_SIZE", "IMAGE_PREFILL_PATTERN", "DB_SUB_FEATURE", "MARK", "FEATURE_NAME"})
     bca = class_consts("spsdk/image/bca/bca.py", {"SIZE", "TAG"}).get("BCA", {})
